@@ -53,7 +53,7 @@ REGISTERED = {"invalid_request", "invalid_client", "invalid_grant", "unauthorize
 FITTING = {200, 201, 204, 302, 400, 401, 403, 405}
 
 HOSTILE = ["", "x" * 5000, '"', "\\", "a\"b", "a\\b", "\x00", "a\x00b", "\r\n", "a\r\nSet-Cookie: x=1", "é", "日本", "😀".encode("utf-16", "surrogatepass").decode("utf-16"),
-           "%", "%zz", "%e9", "%00", "a b", " ", "\t", "a&b=c", "a=b", "a;b", "{}", "[]", "null", "'", "<script>", "\x7f", "\x1f", "~", "%c3%28"]
+           "%", "%zz", "%e9", "%00", "%ff", "%C0%AF", "a b", " ", "\t", "a&b=c", "a=b", "a;b", "{}", "[]", "null", "'", "<script>", "\x7f", "\x1f", "~", "%c3%28"]
 
 
 def site(e):
@@ -545,6 +545,12 @@ def run_endpoints(ctx):
             hd = dict(headers)
             hd["Authorization"] = h
             variants.append(("authz-header", dict(params), hd, None, None, None))
+        # every hostile value as the Basic client id and as the Basic secret (valid base64 of valid UTF-8, hostile text inside)
+        for h in (HOSTILE if not quick else rng.sample(HOSTILE, 10) + ["%ff", "%c3%28", "%C0%AF"]):
+            for cid, sec in ((h, "s1"), ("c1", h), (h, h)):
+                hd = dict(headers)
+                hd["Authorization"] = basic(cid, sec)
+                variants.append(("authz-basic-hostile", dict(params), hd, None, None, None))
         hd = dict(headers)
         hd.pop("Authorization", None)
         variants.append(("no-authz-header", dict(params), hd, None, None, None))
